@@ -39,6 +39,7 @@ type EntryResult struct {
 	MaxDepth   int                   `json:"max_depth"`
 	Cross      map[string]int        `json:"cross,omitempty"`
 	Truncated  bool                  `json:"truncated"`
+	Witnesses  []Witness             `json:"witnesses"`
 }
 
 func loadProgram(dir, pkgPat string, harnessFiles []string, extraPkgs []string) (*ssa.Program, *ssa.Package, error) {
@@ -107,12 +108,18 @@ func cmdExec(args []string) {
 	maxPaths := fs.Int("maxpaths", 200000, "path budget per entry")
 	steps := fs.Int64("steps", 5_000_000, "instruction budget per path")
 	workers := fs.Int("workers", 8, "parallel workers")
-	solver := fs.String("solver", "z3", "solver binary")
+	solver := fs.String("solver", "z3", "primary solver binary")
+	fallback := fs.String("fallback", "z3-new", "comma-separated fallback solvers (one-shot) used when the primary answers unknown")
 	queryMs := fs.Int("queryms", 60000, "per-query timeout (ms)")
 	maxViol := fs.Int("maxviol", 3, "violations kept per check")
 	cross := fs.String("cross", "", "comma-separated extra solvers to re-discharge final checks with")
 	out := fs.String("out", "", "write JSON here instead of stdout")
+	witnesses := fs.Int("witnesses", 8, "path witnesses (model + observations) kept per entry")
 	verbose := fs.Bool("v", false, "verbose")
+	relax := fs.Bool("relaxtrunc", false, "over-approximate float->int truncation by a real in (x-1,x] (integrality dropped)")
+	patience := fs.Int("patience", 3000, "ms the incremental primary solver gets before the query goes to the one-shot portfolio")
+	knownS := fs.String("known", "", "comma-separated ids of open known findings (vKnown)")
+	seed := fs.Int("seed", 0, "solver random seed")
 	fs.Parse(args)
 
 	t0 := time.Now()
@@ -138,7 +145,7 @@ func cmdExec(args []string) {
 			os.Exit(3)
 		}
 		cfg := Config{Harness: entry, MaxPaths: *maxPaths, UnwindLimit: *unwind, Preempt: *preempt, StepLimit: *steps,
-			Workers: *workers, SolverBin: *solver, QueryMs: *queryMs, MaxViol: *maxViol, KeepScripts: *cross != "", Verbose: *verbose}
+			Workers: *workers, SolverBin: *solver, Fallback: splitNE(*fallback), QueryMs: *queryMs, MaxViol: *maxViol, KeepScripts: *cross != "", Witnesses: *witnesses, RelaxTrunc: *relax, PatienceMs: *patience, Known: splitNE(*knownS), Seed: *seed, Verbose: *verbose}
 		eng := &Engine{prog: prog, cfg: cfg, res: NewResults(), entry: fn}
 		t1 := time.Now()
 		eng.Run()
@@ -146,7 +153,7 @@ func cmdExec(args []string) {
 		er := &EntryResult{Entry: entry, Paths: r.Paths, Instrs: r.Instrs, Queries: r.Queries, SolverS: r.SolverTime.Seconds(),
 			WallS: time.Since(t1).Seconds(), Outcomes: r.Outcomes, OutcomeMsg: r.OutcomeMsg, Checks: r.Checks,
 			Violations: r.Violations, Funcs: sortedKeys(r.Funcs), Stubs: r.Stubs, Samples: r.Samples, MaxDepth: r.MaxDepth,
-			Truncated: eng.stopped}
+			Truncated: eng.stopped, Witnesses: r.Witnesses}
 		if *cross != "" {
 			er.Cross = map[string]int{}
 			for _, bin := range strings.Split(*cross, ",") {
@@ -172,3 +179,10 @@ func cmdExec(args []string) {
 }
 
 var _ = sort.Strings
+
+func splitNE(s string) []string {
+	if s == "" {
+		return nil
+	}
+	return strings.Split(s, ",")
+}
